@@ -92,6 +92,7 @@ func (w *worldT) close() {
 
 type resetParams struct {
 	arbF, gc, gt, burn, maxtxn, maxblk, prec, ubf, umax, uprec uint64
+	cbf, cmax, cprec                                           uint64 // block-creation rules (default: the unconfirmed ones)
 }
 
 func parseKV(fields []string) map[string]string {
@@ -114,7 +115,7 @@ func makeConfig(rp resetParams, publisher bool, arbitrating bool, genesisSig cip
 	}
 	vt := params.VerifyTxn{BurnFactor: uint32(rp.burn), MaxTransactionSize: uint32(rp.maxtxn), MaxDropletPrecision: uint8(rp.prec)}
 	c.UnconfirmedVerifyTxn = vt
-	c.CreateBlockVerifyTxn = vt
+	c.CreateBlockVerifyTxn = params.VerifyTxn{BurnFactor: uint32(rp.cbf), MaxTransactionSize: uint32(rp.cmax), MaxDropletPrecision: uint8(rp.cprec)}
 	c.MaxBlockTransactionsSize = uint32(rp.maxblk)
 	c.GenesisAddress = keys[0].addr
 	c.GenesisSignature = genesisSig
@@ -574,7 +575,68 @@ func digest(n *node) string {
 		bal = strings.Join(bs, ",")
 	}
 	parts = append(parts, "bal="+bal)
+	parts = append(parts, "vbq="+verboseBlockQueries(n))
 	return "D" + strings.Join(parts, ";")
+}
+
+// verboseBlockQueries: the verbose view of a block (its transactions' inputs with the hours they had accrued at the
+// previous block's time) is a function of the chain and the block alone — it must be the same whether the block is
+// asked for alone, by a list of sequence numbers with gaps or out of order, by a range or as one of the last N.
+// Returns "ok", "-" (chain too short to ask) or the first query whose answer differs.
+func verboseBlockQueries(n *node) string {
+	hs, ok, err := n.v.HeadBkSeq()
+	if err != nil || !ok || hs < 2 {
+		return "-"
+	}
+	key := func(b *coin.SignedBlock, in [][]visor.TransactionInput) string {
+		var sb strings.Builder
+		fmt.Fprintf(&sb, "%d:", b.Head.BkSeq)
+		for _, t := range in {
+			for _, i := range t {
+				fmt.Fprintf(&sb, "%s/%d,", sh(i.UxOut.Hash()), i.CalculatedHours)
+			}
+			sb.WriteString(";")
+		}
+		return sb.String()
+	}
+	single := map[uint64]string{}
+	for q := uint64(0); q <= hs; q++ {
+		b, in, err := n.v.GetSignedBlockBySeqVerbose(q)
+		if err != nil || b == nil {
+			return fmt.Sprintf("single(%d):err", q)
+		}
+		single[q] = key(b, in)
+	}
+	check := func(name string, bs []coin.SignedBlock, ins [][][]visor.TransactionInput, err error) string {
+		if err != nil || len(bs) != len(ins) {
+			return name + ":err"
+		}
+		for i := range bs {
+			if key(&bs[i], ins[i]) != single[bs[i].Head.BkSeq] {
+				return fmt.Sprintf("%s:block%d", name, bs[i].Head.BkSeq)
+			}
+		}
+		return ""
+	}
+	lists := [][]uint64{{hs, 1}, {1, hs}, {0, hs}, {hs - 1, hs}, {hs, hs - 1, 0}}
+	if hs >= 4 {
+		lists = append(lists, []uint64{1, 2, hs - 1, hs}, []uint64{hs, 2})
+	}
+	for _, l := range lists {
+		bs, ins, err := n.v.GetBlocksVerbose(l)
+		if r := check(fmt.Sprintf("seqs%v", l), bs, ins, err); r != "" {
+			return strings.ReplaceAll(r, " ", ",")
+		}
+	}
+	bs, ins, err := n.v.GetBlocksInRangeVerbose(1, hs)
+	if r := check("range", bs, ins, err); r != "" {
+		return r
+	}
+	bs, ins, err = n.v.GetLastBlocksVerbose(2)
+	if r := check("last2", bs, ins, err); r != "" {
+		return r
+	}
+	return "ok"
 }
 
 func signHash(h cipher.SHA256, k cipher.SecKey) cipher.Sig { return cipher.MustSignHash(h, k) }
